@@ -5,6 +5,7 @@ import (
 	"context"
 	"errors"
 	"io"
+	"math"
 
 	"github.com/oasisprotocol/oasis-core/go/common"
 	"github.com/oasisprotocol/oasis-core/go/common/crypto/hash"
@@ -20,7 +21,14 @@ var (
 	// ErrKnownRootMismatch is the error returned by CommitKnown when the known
 	// root mismatches.
 	ErrKnownRootMismatch = errors.New("mkvs: known root mismatch")
+
+	// ErrKeyTooLarge is the error returned when a key is too large for its bit
+	// length to be represented by node.Depth.
+	ErrKeyTooLarge = errors.New("mkvs: key too large")
 )
+
+// maxKeySize is the maximum size of a key in bytes (its bit length must fit node.Depth).
+const maxKeySize = math.MaxUint16 / 8
 
 // ImmutableKeyValueTree is the immutable key-value store tree interface.
 type ImmutableKeyValueTree interface {
